@@ -15,7 +15,8 @@ Import ListNotations.
 
 (* For every decoder kind, preload on and off, every list of middlewares that can start, `headers:`
    option, file with at least one entry, limit, passes, chosencases list, cancellation point and
-   fuel: what is delivered is the cyclic replay of exactly the chosen entries, and the request of
+   fuel ([end_with]: when Close of the ammo file fails Run reports that instead of its own result):
+   what is delivered is the cyclic replay of exactly the chosen entries, and the request of
    every delivery is the middlewares applied to a request carrying exactly the headers of the
    entry's own line ([with_req]) — the first time the entry is delivered and every later time. *)
 Theorem C14_mw : forall k preload lim pas cfgh items chb ops,
@@ -27,10 +28,10 @@ Theorem C14_mw : forall k preload lim pas cfgh items chb ops,
   cs <> [] -> init_fails ops = false ->
   (src <> [] ->
       (forall b fuel, bound lim pas (length src) = Some b -> C * (b + n + 1) < fuel ->
-         runm None fuel = (map (with_req ops) (cyc_c src b), Ok, true))
+         runm None fuel = (map (with_req ops) (cyc_c src b), end_with ops Ok, true))
       /\ (forall cancel fuel, exists j,
             fst (fst (runm cancel fuel)) = map (with_req ops) (cyc_c src j) /\ le_opt j (bound lim pas (length src))))
-  /\ (src = [] -> forall fuel, C * (n + 1) < fuel -> runm None fuel = ([], Failed ENoAmmo, true)).
+  /\ (src = [] -> forall fuel, C * (n + 1) < fuel -> runm None fuel = ([], end_with ops (Failed ENoAmmo), true)).
 Proof. exact c14_mw. Qed.
 Print Assumptions C14_mw.
 
@@ -90,7 +91,8 @@ Example C14_mw_examples :
   let want := [(c 0 exm_t1 exm_one, r exm_one); (c 2 exm_t1 exm_two, r exm_two); (c 0 exm_t1 exm_one, r exm_one)] in
   deliver_m DUri true 3 0 [] exm_items [exm_t1] exm_ops None 200 = (want, Ok, true)
   /\ deliver_m DUri false 3 0 [] exm_items [exm_t1] exm_ops None 200 = (want, Ok, true)
-  /\ init_fails exm_ops = false
+  /\ init_fails exm_ops = false /\ end_with exm_ops Ok = Ok
+  /\ deliver_m DUri true 3 0 [] exm_items [exm_t1] (exm_ops ++ [OCloseFails]) None 200 = (want, Failed EUnexpected, true)
   /\ deliver_m DUri true 3 0 [] exm_items [exm_t1] (MBadInit :: exm_ops) None 200 = ([], Failed EUnexpected, true)
   /\ (let cs := file_entries [] exm_items [] 0 in
       let del := [c 0 exm_t1 exm_one; c 2 exm_t1 exm_two; c 0 exm_t1 exm_one] in
